@@ -6,6 +6,6 @@ CONSTANTS
   Classes = {"GoodKA", "GoodClose", "GoodHead", "BadLine", "BadHeader", "BadCL", "BadChunk", "BadEscape", "Nul", "TlsHello", "TlsCut", "Truncate", "Rest"}
   Racing = TRUE
   Linger = FALSE
-  DefectSets = {{}}
+  DefectSets = {{}, {"echo505", "cookieecho"}}
 INVARIANT TypeOK
 CHECK_DEADLOCK FALSE
